@@ -55,8 +55,8 @@ def r_cachekeys(root):
         for fn in [n for n in ast.walk(t) if isinstance(n, ast.FunctionDef)]:
             stores = []
             for n in own_nodes(fn):
-                if isinstance(n, ast.Assign) and len(n.targets) == 1 and isinstance(n.targets[0], ast.Subscript):
-                    base = n.targets[0].value; name = None
+                for tgs_ in ([x for x in n.targets if isinstance(x, ast.Subscript)] if isinstance(n, ast.Assign) else []):         # also  x = cache[key] = value
+                    base = tgs_.value; name = None
                     if isinstance(base, ast.Name) and base.id in mod_level and not _is_local(fn, base.id): name = base.id
                     elif isinstance(base, ast.Attribute) and isinstance(base.value, ast.Name) and base.value.id in ("self", "cls"):
                         c = next((a for a in ancestors(fn) if isinstance(a, ast.ClassDef)), None)
@@ -64,12 +64,12 @@ def r_cachekeys(root):
                     elif isinstance(base, ast.Attribute) and isinstance(base.value, ast.Name):
                         c = next((k for k in ast.walk(t) if isinstance(k, ast.ClassDef) and k.name == base.value.id), None)
                         if c is not None and base.attr in getattr(c, "_shared", ()): name = base.attr
-                    if name: stores.append((name, n))
+                    if name: stores.append((name, n, tgs_))
             if not stores: continue
             fi = sem.info(fn)
-            for name, st in stores:
+            for name, st, tgs_ in stores:
                 inst += 1
-                key = fi.expand(st.targets[0].slice, at=st); val = fi.expand(st.value, at=st)
+                key = fi.expand(tgs_.slice, at=st); val = fi.expand(st.value, at=st)
                 kin = _chains(key); vin = _chains(val)
                 params = {a.arg for a in fn.args.args + fn.args.kwonlyargs}
                 missing = []
@@ -90,7 +90,7 @@ def r_cachekeys(root):
                     for p_ in _gen.props_for(rel, qualname(st), root):
                         if p_ != "C16": props.append((p_, p_ + ".M"))        # the function belongs to that property's mechanism as well
                     for pr, cl in props:
-                        out.append(Finding(pr, cl, rel, qualname(st), "%s[%s] = ... %s ..." % (name, ast.unparse(st.targets[0].slice)[:40], c), "the process-wide cache %s is keyed by %s but the cached value is computed from %s: a later metamodel with a different %s receives the object built for the first one" % (name, ast.unparse(key)[:50], c, leaf), witness="two metamodels in one process that differ in %s" % leaf))
+                        out.append(Finding(pr, cl, rel, qualname(st), "%s[%s] = ... %s ..." % (name, ast.unparse(tgs_.slice)[:40], c), "the process-wide cache %s is keyed by %s but the cached value is computed from %s: a later metamodel with a different %s receives the object built for the first one" % (name, ast.unparse(key)[:50], c, leaf), witness="two metamodels in one process that differ in %s" % leaf))
     if inst < 1: raise AnalysisError("no process-wide cache found (textX_parsers expected)")
     return inst, out
 def _is_local(fn, name):
